@@ -669,7 +669,9 @@ func (e *Engine) enterLoop(fr *Frame, l *Loop, pre *State) *State {
 			cur = e.heap0ByKey(st, k)
 		}
 		st.heap[k] = e.fresh(cur.Sort, fmt.Sprintf("L%d.M:%s", l.ord, k))
-		ff = append(ff, frameFact{k, arrElemSort(arrElemSort(cur.Sort))})
+		if !strings.HasPrefix(k, "map:") {
+			ff = append(ff, frameFact{k, arrElemSort(arrElemSort(cur.Sort))})
+		}
 	}
 	l.frameInv = ff
 	if chAlloc {
@@ -704,7 +706,7 @@ func (e *Engine) enterLoop(fr *Frame, l *Loop, pre *State) *State {
 		}
 	}
 	// frame facts for modified heap maps (function-level modifies clause), assumed at the head, checked at back edges
-	if fr.top && e.contract != nil && !e.w.sweep {
+	if fr.top && e.contract != nil && !e.w.sweep && !e.contract.ModAny {
 		for _, f := range ff {
 			e.assume(Implies(st.guard, e.frameFormula(st, f.key, f.sort, true)))
 		}
@@ -785,7 +787,7 @@ func (e *Engine) loopBack(fr *Frame, l *Loop, st *State, from *ssa.BasicBlock) {
 			e.oblige("loop-decreases", fmt.Sprintf("loop%d/decreases@b%d", l.ord, from.Index), st.guard, And(lt, ge), l.pos)
 		}
 	}
-	if e.contract != nil && !e.w.sweep {
+	if e.contract != nil && !e.w.sweep && !e.contract.ModAny {
 		for _, f := range l.frameInv {
 			e.oblige("modifies", fmt.Sprintf("loop%d/frame[%s]@b%d", l.ord, shortKey(f.key), from.Index), st.guard, e.frameFormula(st, f.key, f.sort, false), l.pos)
 		}
